@@ -1051,9 +1051,13 @@ class Variable(CanBehaveLikeAVariable[T]):
         if self._predicate_type_ == PredicateType.SubClassOfPredicate:
             function_output = function_output()
 
-        # Compute truth considering inversion
-        result_truthy = bool(function_output)
-        self._is_false_ = result_truthy if self._invert_ else not result_truthy
+        if self._predicate_type_:
+            # Compute truth considering inversion
+            result_truthy = bool(function_output)
+            self._is_false_ = result_truthy if self._invert_ else not result_truthy
+        else:
+            # an instance (constructed or found) is a value, it is passed on whatever its truthiness is.
+            self._is_false_ = False
 
         if self._yield_when_false_ or not self._is_false_:
             hv = function_output if isinstance(function_output, HashedValue) else HashedValue(function_output)
